@@ -1,0 +1,10 @@
+//go:build verif
+
+package treeset
+
+import rbt "github.com/emirpasic/gods/v2/trees/redblacktree"
+
+// VerifInner returns the wrapped red-black tree.
+func (set *Set[T]) VerifInner() *rbt.Tree[T, struct{}] {
+	return set.tree
+}
